@@ -162,6 +162,38 @@ def _c15(E, tier, seed, res):
                                            "evx-c15 %d %d 24 %d (shared Arc<Node> x shared contexts, %d threads)" % (rounds, threads, seed * 1000 + i, threads),
                                            "every concurrent result equals the sequential one", "\n".join(lines[:4]) or out[-400:],
                                            leg="native", cmd=[rounds, threads, 24, seed * 1000 + i]))
+    # cold starts: short processes whose very first use of the library happens on all threads at once (lazily initialised
+    # tables are initialised under contention), followed by per-thread clones of one context with a stateful function
+    ncold, cthreads = (32, 16) if tier == "quick" else (320, 32)
+    cold_done = 0
+    for base in range(0, ncold, 8):
+        cprocs = [subprocess.Popen([binary, "cold", str(cthreads), str(seed * 1000 + base + i)], stdout=subprocess.PIPE,
+                                   stderr=subprocess.PIPE, text=True, errors="replace") for i in range(min(8, ncold - base))]
+        for i, p in enumerate(cprocs):
+            try:
+                out, err = p.communicate(timeout=600)
+            except subprocess.TimeoutExpired:
+                p.kill()
+                res["inconclusive"].append("cold-start leg: watchdog fired")
+                continue
+            j = _last_json(out)
+            if j is None:
+                if p.returncode and p.returncode < 0 or "panicked" in err:
+                    res["violations"].append(_viol("concurrent/worker-died", "evx-c15 cold %d %d" % (cthreads, seed * 1000 + base + i),
+                                                   "all threads finish", "exit %s: %s" % (p.returncode, err[-600:]), leg="native",
+                                                   cmd=["cold", cthreads, seed * 1000 + base + i]))
+                else:
+                    res["inconclusive"].append("cold-start leg: no summary (exit %s) %s" % (p.returncode, err[-200:]))
+                continue
+            cold_done += 1
+            evals += j["evaluations"]
+            if j["mismatches"] > 0 or p.returncode != 0:
+                lines = [l for l in out.splitlines() if l.startswith("MISMATCH")]
+                res["violations"].append(_viol("concurrent/cold-start-or-cloned-context-differs-from-sequential",
+                                               "evx-c15 cold %d %d (first use of the library on %d threads at once; then per-thread clones of one context)" % (cthreads, seed * 1000 + base + i, cthreads),
+                                               "every concurrent result equals the sequential one", "\n".join(lines[:4]) or out[-400:],
+                                               leg="native", cmd=["cold", cthreads, seed * 1000 + base + i]))
+    cov["cold_start_processes"] = cold_done
     cov["native_evaluations"] = evals
     cov["distinct_interleaving_signatures"] = inter
     cov["slow_context_events_logged"] = events
